@@ -41,7 +41,7 @@ LAYERS: Dict[str, Dict[str, Any]] = {
     'fortran_sim': dict(MaxStmts=4, MaxLeaves=5, MaxNodes=10, MaxNames=5, Kinds='AllKinds', Idxs='FortIdxs', LhsIdxs='Lhs0', Nums='FortNums',
                         BinOps='ArithOps', CmpOps='NoStr', Funcs1='FortF1', Funcs2='PairF2', UseNeg='TRUE', UseParen='TRUE', UseCond='FALSE'),
     # everything, sampled
-    'sim': dict(MaxStmts=5, MaxLeaves=5, MaxNodes=10, MaxNames=5, Kinds='AllKinds', Idxs='SimIdxs', LhsIdxs='Lhs01', Nums='SimNums',
+    'sim': dict(MaxStmts=5, MaxLeaves=5, MaxNodes=10, MaxNames=5, Kinds='VOnly', Idxs='SimIdxs', LhsIdxs='Lhs01', Nums='SimNums',
                 BinOps='ArithOps', CmpOps='AllCmps', Funcs1='PairF1', Funcs2='PairF2', UseNeg='TRUE', UseParen='TRUE', UseCond='TRUE'),
 }
 
@@ -63,8 +63,11 @@ def layer_cfg(layer: str, invariants: Sequence[str], emit: bool = True) -> str:
     return '\n'.join(lines) + '\n'
 
 
+SMALL_LAYERS = {'term': 2, 'merge2_small': 4, 'shape3_small': 8, 'fortran_small': 8, 'pair_small': 8, 'merge3': 8, 'merge2': 8}
+
+
 def emit_layer(ctx: core.Ctx, layer: str, *, timeout: int = 3600) -> List[Dict[str, Any]]:
-    results = core.run_sharded('ScriptMC', layer_cfg(layer, INV), core.NCPU, tag=f'{ctx.prop}-{layer}', timeout=timeout,
+    results = core.run_sharded('ScriptMC', layer_cfg(layer, INV), SMALL_LAYERS.get(layer, core.NCPU), tag=f'{ctx.prop}-{layer}', timeout=timeout,
                                heap='3g')
     recs, cov = [], {}
     for r in results:
@@ -116,7 +119,9 @@ def replay(ctx: core.Ctx, recs: List[Dict[str, Any]], *, checks: Sequence[str], 
            layouts: Sequence[str] = ('canon',), key_prefix: str = '') -> None:
     if not recs:
         raise core.MachineryError(f'no programs emitted for {what}')
-    payloads = [{'records': ch, 'checks': list(checks), 'namemaps': list(namemaps), 'layouts': list(layouts), 'seed': ctx.seed, 'tier': ctx.tier}
+    semantic_layouts = ['wide', 'space_after_sign', 'plus', 'explicit0', 'compact'] if {'c01', 'c03'} & set(checks) else []
+    payloads = [{'records': ch, 'checks': list(checks), 'namemaps': list(namemaps), 'layouts': list(layouts), 'seed': ctx.seed, 'tier': ctx.tier,
+                 'semantic_layouts': semantic_layouts}
                 for ch in core.chunks(recs, core.NCPU * 3)]
     outs = core.run_workers('harness.replay_script', payloads)
     ctx.evaluations += sum(o['n'] for o in outs)
